@@ -108,6 +108,7 @@ type Interp struct {
 	errObjs  map[string]Iface
 
 	depth      int
+	noConcFmt  bool
 	lastStack  string
 	ctxs       []*ctxObj
 	curIns     ssa.Instruction
